@@ -17,6 +17,13 @@ run_one() {
   done
 }
 export -f run_one
-ls -d /verif/seeded/C*/ | sed 's:/$::' | xargs -P 3 -I{} bash -c "run_one {} $tier" >> $out.tmp
+# 4 slots, each with its own fixed scratch path so that only the crate and the engine are rebuilt
+ls -d /verif/seeded/C*/ | sed 's:/$::' | awk '{print NR%4, $0}' > $out.list
+for slot in 0 1 2 3; do
+  ( grep "^$slot " $out.list | cut -d' ' -f2 | while read d; do TRY_SLOT=$slot run_one $d $tier; done >> $out.tmp.$slot ) &
+done
+wait
+cat $out.tmp.0 $out.tmp.1 $out.tmp.2 $out.tmp.3 >> $out.tmp; rm -f $out.tmp.? $out.list
+rm -rf /verif/target/alt
 sort $out.tmp > $out; rm $out.tmp
 cat $out
